@@ -360,12 +360,33 @@ pub fn exec(project: &Project, config: &Value) -> Value {
     json!({"ev": "x06", "project": irenc::project(project), "config": config, "reported": reported, "stage": stage, "panic": panic})
 }
 
+/// spec -> impl: the hand-written scenarios TLC printed while checking mc/MC_UafWalk (one JSON object per line:
+/// name, project, config, expect, exact) are run through the real checker; `expect` / `exact` / `name` are copied into
+/// the event for T_X06.
+fn gen_scenarios(out: &mut Out) {
+    let path = std::env::var("VERIF_X06_SCENARIOS").expect("VERIF_X06_SCENARIOS");
+    let text = std::fs::read_to_string(&path).expect("scenario file");
+    for line in text.lines() {
+        if line.trim().is_empty() { continue }
+        let sc: Value = serde_json::from_str(line).expect("scenario json");
+        let mut ev = exec(&dec::project(&sc["project"]), &sc["config"]);
+        for k in ["name", "expect", "exact"] {
+            ev[k] = sc[k].clone();
+        }
+        let nt = !ev["reported"].as_array().unwrap().is_empty();
+        out.emit(vec![ev], nt);
+    }
+}
+
 pub fn gen(out: &mut Out, sub: &str) {
     if sub == "probe" {
         return crate::props::x06_probe::probe(out);
     }
+    if sub == "mc" {
+        return gen_scenarios(out);
+    }
     let mut rng = Rng::new(out.seed ^ 0x0A06);
-    let n = out.size(300, 4000);
+    let n = out.size(1600, 24_000);
     let seeds: Vec<Rng> = (0..n).map(|_| rng.fork()).collect();
     let evs = crate::par::map(seeds, 4, |mut r| {
         let project = gen_project(&mut r, (6, 4, 4));
@@ -390,5 +411,16 @@ pub fn gen(out: &mut Out, sub: &str) {
 }
 
 pub fn replay(run: &[Value], _sub: &str) -> Vec<Value> {
-    run.iter().map(|e| exec(&dec::project(&e["project"]), &e["config"])).collect()
+    run.iter()
+        .map(|e| {
+            let mut ev = exec(&dec::project(&e["project"]), &e["config"]);
+            // a replayed hand-written scenario keeps its hand-derived expectation
+            for k in ["name", "expect", "exact"] {
+                if !e[k].is_null() {
+                    ev[k] = e[k].clone();
+                }
+            }
+            ev
+        })
+        .collect()
 }
